@@ -2153,7 +2153,7 @@ def validation_cases():
         # ---- round 5: _resize_discr / apply_on_boundary argument checks
         ('discr_kwargs nodes_on_bdry of the wrong length', 'op/nodes_on_bdry-length', ValueError,
          lambda ok: ro(d2(), ran_shp=(6, 2), discr_kwargs={
-             'nodes_on_bdry': [(True, True), (False, True)] if ok else [True, False, True]})),
+             'nodes_on_bdry': [True, (False, True)] if ok else [True, False, True]})),  # mixed form: C16-F11 fixed in 91000fe
         ('apply_on_boundary: function sequence of the wrong length', 'aob/func-length',
          ValueError,
          lambda ok: lambda: apply_on_boundary(x24(), [None, lambda v: v] if ok else
